@@ -121,10 +121,10 @@ func gr4j(rainfall data.ND1Float64, pet data.ND1Float64, s0 float64, r0 float64,
 	}
 
 	var SH2 = make([]float64, n2)
-	for i := 0; i <= int(x4-1); i++ {
+	// rising limb while t = i+1 <= x4, falling limb after (one index running through both loops)
+	for i = 0; i < n2 && float64(i+1) <= x4; i++ {
 		SH2[i] = 0.5 * math.Pow((float64)(i+1)/x4, 5.0/2.0)
 	}
-	i++
 	for ; i < n2; i++ {
 		SH2[i] = 1 - 0.5*math.Pow(2-(float64)(i+1)/x4, 5.0/2.0)
 	}
